@@ -51,6 +51,24 @@ PROPS = {
                      "G2 ring identities are not discharged by Verus (transfer T1)"],
         assumptions=[A['A2'], A['A3'], "T1 an integer polynomial identity holds in every commutative ring (used to read G1's identities in Fq2)", A['D_FQ'], A['TOOLS']],
     ),
+    'C14': dict(
+        units_quick=['h2c', 'cofactor', 'curve'], units_thorough=['h2c', 'cofactor', 'curve'], timeout=600,
+        claim="map_to_curve(u) = [h_eff] iso(sswu(u)) and map2_to_curve(u0,u1) = [h_eff](iso(sswu(u0)) + iso(sswu(u1))) with + the group law of the "
+              "target curve, for every u (generic real bodies verified once against the trait contracts of OSSWUMap, IsogenyMap, ClearH, add_assign); "
+              "the result is annihilated by r and the debug assertion cannot fire (the panic call is proved unreachable). On the pre-fix code the "
+              "obligation `add on E of two E' points` is not provable: the genuine defect repaired by the fix: commit.",
+        not_covered=["the SSWU map itself (C15) and the isogeny (C16) enter through their trait contracts"],
+        assumptions=[A['A3'], A['A4'], "A9 the isogeny is a homomorphism (only needed to equate with the RFC's add-then-map order; the code maps then adds)",
+                     "trait contracts of OSSWUMap / IsogenyMap / ClearH / SubgroupCheck are assumed in unit h2c; ClearH's is proved in unit cofactor, add_assign's in unit curve", A['TOOLS']],
+    ),
+    'C06': dict(
+        units_quick=['h2c'], units_thorough=['h2c', 'cofactor', 'curve'], timeout=600,
+        claim="PARTIAL (composition only): hash_to_curve(msg,dst) = map2_to_curve(u[0],u[1]) with u = hash_to_field(msg,dst,2) and encode_to_curve = "
+              "map_to_curve(hash_to_field(msg,dst,1)[0]): element count, indices and which map are verified on the real generic bodies; the result is "
+              "a function of (msg, dst) only and is annihilated by r. RFC conformance of the stages is the conjunction of C13, C15, C16, C17, C14 under their scopes.",
+        not_covered=["expand_message_xmd / expand_message_xof and the hash primitives (C13 scope, D3)", "SSWU (C15) and isogeny (C16) internals"],
+        assumptions=[A['A4'], "contract of hash_to_field (count elements, element i a function of (msg,dst,count,i)) assumed here", A['TOOLS']],
+    ),
 }
 
 HOOK_COMMITS = []
